@@ -323,6 +323,12 @@ def main(tier):
             witnesses.append(w)
         elif r["status"] == "inconclusive":
             rep.inconc("run: %s" % r.get("note"))
+    from vf.props import glue
+    try:
+        gfind, gok, grun = glue.analyse()
+        witnesses += glue.witnesses_for(PROP, gfind)
+    except common.Inconclusive as e:
+        rep.inconc(str(e))
     seen = set()
     groups = {}
     for w in witnesses:
